@@ -96,7 +96,7 @@ TEXT["C14"] = {
     "text": ("Proof: Props/C14.lean proves: an open notification goes only to an accepting module at or above its threshold; within an incident two open notifications to a module are more than its send "
              "interval apart; with send-once at most one per incident; and every incident is announced — at the first evaluation of an incident whose status reaches an accepting module's threshold that "
              "module is notified, for the first and every later incident (every_incident_announced). The last theorem was false of the unchanged code (LastNotify survived incidents): the check found "
-             "it, the defect was repaired in /repo (fix: commit), the model is of the repaired code. reminder_when_interval_elapsed: the interval limits but does not swallow — a module that is not send-once is notified again by the first evaluation of the incident that comes more than its interval after its last notification. The configuration phase is part of the model and of the stream: N conf ops run the REAL Configure of the notifier coordinator on notifier sections with every setting independently present or absent and compare what notifyModule will read per module and the evaluation pace with ModSpec.cfg / minIntervalOf (defaults_are_the_documented_ones, pace_is_the_shortest_interval). Tie: real notifier code vs the compiled model over all option combinations."),
+             "it, the defect was repaired in /repo (fix: commit), the model is of the repaired code. reminder_when_interval_elapsed: the interval limits but does not swallow — a module that is not send-once is notified again by the first evaluation of the incident that comes more than its interval after its last notification. The configuration phase is part of the model and of the stream: N conf ops run the REAL Configure of the notifier coordinator on notifier sections with every setting independently present or absent and compare what notifyModule will read per module and the evaluation pace with ModSpec.cfg / minIntervalOf (defaults_are_the_documented_ones, pace_is_the_shortest_interval). Between the evaluator and the incident logic lies responseLoop: its control skeleton is regenerated from the source and pinned (every_result_reaches_the_incident_logic: a reply is skipped only when nil or NOTFOUND, every other one is handed over once). Tie: real notifier code vs the compiled model over all option combinations."),
     "note": ("Trusted: Lean kernel + standard axioms; harness incl. time shifting (interval boundaries approached to 8 ms, never compared exactly). Reading: send-interval applies within an incident."),
 }
 
@@ -109,7 +109,7 @@ TEXT["C05"] = {
              "since the repair of D16: a zero lifetime reached goswarm as 'never expires'), "
              "and serving a filtered view leaves the cache as a full-view request would (filtered_view_pure). The key-collision defect D5 and D16 were found by the check and repaired in /repo; the "
              "stream also meets a storage subsystem that is slow to accept the evaluator's fetch, clusters differing only in case, and a directed staleness scenario (full view, problems-only view, "
-             "change, problems-only view again just after one lifetime), and two requests for one group in flight together while its entry has expired and storage has changed (cqdup: both answers must be the status now). Tie: real CachingEvaluator + goswarm on real storage vs the compiled model."),
+             "change, problems-only view again just after one lifetime), and two requests for one group in flight together while its entry has expired and storage has changed (cqdup: both answers must be the status now). Glue: bursts of 3-40 concurrent requests go through the REAL evaluator coordinator (real Configure and Start: its request forwarder and the module's main loop) — one reply each, rightly named, none extra (cburst); the forwarder's control skeleton is regenerated from the source and pinned (evaluator_forwarder_hands_over_each_request_once); the /status and /lag routes of the HTTP API are judged too (stream http: the evaluated group is the one named in the URL, also for names with + and %XX). Tie: real CachingEvaluator + goswarm on real storage vs the compiled model."),
     "note": ("Trusted: Lean kernel + standard axioms; harness incl. cache-ageing hook; goswarm modelled from source. Not modelled: goroutine-per-request scheduling and liveness (observed only), "
              "evaluation time. The tie is sampled."),
 }
@@ -151,7 +151,7 @@ TEXT["C10"] = {
              "leave storage untouched, and after any history every group in any listing was created by an accepted commit or ownership update (storage_tracks_only_accepted); the offsets-topic "
              "reader forwards no offset, ownership, clear or delete request for a rejected group for any bytes (kafka_reader_forwards_only_accepted — false before the repair of the metadata path, "
              "found by the check); a notifier module is never notified, open or close, about a group its lists reject. Tie: storage, decode and notifier streams with list pairs; regexp matching is an oracle bit. "
-             "The Zookeeper reader's gate is not yet tied by a stream (see note). Zookeeper reader: zk_reader_forwards_only_accepted (for every tree, op — Start, any later change, the re-initialisation after a session expiry — and verdict function of the lists, nothing is forwarded for a rejected group) and zk_reader_forwards_accepted_commits, over Model/ZkReader.lean, tied by the zkreader stream; the notifier modules' lists are also observed after the REAL Configure of the notifier coordinator (N conf ops: each module is constructed with its own lists and nothing else); zk_reader_rewalk_is_complete (after Start and after every session expiry each parsable commit of an accepted group in the tree is forwarded again)."),
+             "The Zookeeper reader's gate is not yet tied by a stream (see note). Zookeeper reader: zk_reader_forwards_only_accepted (for every tree, op — Start, any later change, the re-initialisation after a session expiry — and verdict function of the lists, nothing is forwarded for a rejected group) and zk_reader_forwards_accepted_commits, over Model/ZkReader.lean, tied by the zkreader stream; the notifier modules' lists are also observed after the REAL Configure of the notifier coordinator (N conf ops: each module is constructed with its own lists and nothing else), and the storage module's and the Kafka consumer module's after THEIR real Configure (S sconf / D kconf ops: each list key absent, empty or a pattern; Model/StorageConf.lean; storage_accepts_iff, empty_string_sets_no_list: the empty string sets no list); zk_reader_rewalk_is_complete (after Start and after every session expiry each parsable commit of an accepted group in the tree is forwarded again)."),
     "note": ("Trusted: Lean kernel + standard axioms; harness; regexp engine as oracle. Partial: the Zookeeper reader path has a single accept gate (resetGroupListWatchAndAdd) that is read, not "
              "modelled; ZK watch dynamics are not modelled."),
 }
@@ -243,7 +243,7 @@ TEXT["C08"] = {
              "run (go/ast: all paths of all 12 handlers, helpers inlined) that every pair of conflicting accesses to the broker map, the group map, a group's topics and last-commit time is so "
              "excluded or is group state touched only by handlers hashed to the group's worker (handlers_disciplined), that every path is balanced and acquires locks in one acyclic order "
              "(paths_balanced, acquisition_ordered), hence — mechanised for an arbitrary rank function and with Go's RWMutex writer preference in the machine — whenever some worker has work left, "
-             "some worker can step (no_deadlock, via Proofs/LocksProgress.lean: deadlock_free), and that exactly the five group-keyed request types are hashed (group_requests_are_hashed); same_group_in_order proves same-key requests reach "
+             "some worker can step (no_deadlock, via Proofs/LocksProgress.lean: deadlock_free), and that exactly the five group-keyed request types are hashed (group_requests_are_hashed); storage_forwarder_keeps_arrival_order pins the regenerated control skeleton of the storage coordinator's forwarder (one loop: take a request, send it on the module's channel, take the next); same_group_in_order proves same-key requests reach "
              "one worker in arrival order; lag_pass_total_on_any_states proves the lag pass of fetchConsumer total for EVERY consumer snapshot and EVERY later broker state, so no interleaving of "
              "topic deletion, re-creation, commits and reads makes a read fail (read_never_fails, reply_is_snapshot). Two genuine defects were found by the concurrent run (and are refuted "
              "by `decide` on the pre-repair skeleton) and repaired: deleteTopic walked the group map unlocked (fatal concurrent map iteration), fetchConsumer indexed broker partitions by "
@@ -265,7 +265,7 @@ TEXT["C15"] = {
              "if it has changed); original_protocol_lost_the_wakeup proves, on the model of the ORIGINAL protocol, the defect that was found and repaired (an expiry broadcast between Lock() "
              "returning and Wait() was lost: the instance evaluated without the lock), early_expiry_is_seen that the same trace is now handled. Tie: real loops + real zookeeper coordinator vs "
              "the model's trace on scripted multi-cycle scenarios in real time, incl. the expiry delivered inside Lock(), flaps (expiry + reconnection before the manager runs) and irrelevant "
-             "session events; Lock() calls made while the session is known to be gone are counted (prelock); scenarios in which nobody reads the evaluator channel for a while (stall=) check that a group is still requested at most once per started interval (burst)."),
+             "session events; Lock() calls made while the session is known to be gone are counted (prelock); scenarios in which nobody reads the evaluator channel for a while (stall=) check that a group is still requested at most once per started interval (burst); scenarios with 3-5 refused Lock() calls in a row and with several intervals without the lock between two owned windows."),
     "note": ("Trusted: Lean kernel + 3 standard axioms; the atomic-step abstraction; real-time margins; the fake Zookeeper's semantics. Not modelled: preemption inside steps, the data race on the plain "
              "bool, the non-exclusive RLock around LastEval, Unlock failing after expiry (Burrow panics by design). The tie is sampled."),
 }
